@@ -1,5 +1,5 @@
 import WR.Base.Sexp
-import WR.C05.Model
+import WR.C05.Printer
 open WR WR.Sexp WR.C05
 
 /-
@@ -7,6 +7,8 @@ open WR WR.Sexp WR.C05
     (c05 (sels <sel> …) <node>)
   answer
     (ok (r <bits> (spec a b c) "pseudo-element") …)      one `r` per selector
+  (c05parse "text") → (ok (sels <sel> …) "printed") | (err) | (unsupported) | (fuel)   the parser model
+  (c05print (sels <sel> …)) → (ok "printed")                                          the printer model
   and the batched form (c05m (sels <sel> …) <node> …) → (ok (t (r …) …) …), one `t` per tree,
   where <bits> is one 0/1 character per node of the tree in document order: `selMatch sel loc`.
 -/
@@ -65,6 +67,37 @@ mutual
     | x :: xs => do some ((← getNode x) :: (← getNodes xs))
 end
 
+def putOp : AttrOp → Sexp
+  | .has => .atom "has" | .eq => .atom "eq" | .ne => .atom "ne" | .incl => .atom "incl"
+  | .dash => .atom "dash" | .pre => .atom "pre" | .suf => .atom "suf" | .sub => .atom "sub"
+
+def putRel : RelKind → Sexp
+  | .is => .atom "is" | .not => .atom "not" | .has => .atom "has" | .haschild => .atom "haschild"
+
+def putComb : Comb → Sexp
+  | .desc => .atom "desc" | .child => .atom "child" | .adj => .atom "adj" | .sib => .atom "sib"
+
+def putStr (s : Str) : Sexp := .str (String.ofList s)
+
+mutual
+  def putSel : Sel → Sexp
+    | .tag n => .list [.atom "tag", putStr n]
+    | .cls n => .list [.atom "class", putStr n]
+    | .id n => .list [.atom "id", putStr n]
+    | .attr k v op ic => .list [.atom "attr", putStr k, putStr v, putOp op, ofBool ic]
+    | .nth a b last ofType => .list [.atom "nth", ofInt a, ofInt b, ofBool last, ofBool ofType]
+    | .only ofType => .list [.atom "only", ofBool ofType]
+    | .empty => .list [.atom "empty"]
+    | .root => .list [.atom "root"]
+    | .never v => .list [.atom "never", putStr v]
+    | .rel k args => .list (.atom "rel" :: putRel k :: putSels args)
+    | .compound pe sels => .list (.atom "compound" :: putStr pe :: putSels sels)
+    | .combined a c d => .list [.atom "combined", putComb c, putSel a, putSel d]
+  def putSels : List Sel → List Sexp
+    | [] => []
+    | s :: ss => putSel s :: putSels ss
+end
+
 def answer (locs : List Loc) (s : Sel) : Sexp :=
   let bits := locs.map (fun l => if selMatch s l then '1' else '0')
   let sp := specificity s
@@ -85,6 +118,15 @@ def handle (req : Sexp) : Sexp :=
       some (.list (.atom "ok" :: roots.map (fun root =>
         let locs := allLocs root
         Sexp.list (.atom "t" :: sels.map (answer locs)))))
+    | .list [.atom "c05parse", .str text] =>
+      match Parse.parseGroupText text.toList with
+      | .ok g => some (.list [.atom "ok", .list (.atom "sels" :: putSels g), putStr (Print.printGroup g)])
+      | .error .malformed => some (.list [.atom "err"])
+      | .error .unsupported => some (.list [.atom "unsupported"])
+      | .error .fuel => some (.list [.atom "fuel"])
+    | .list [.atom "c05print", .list (.atom "sels" :: ss)] => do
+      let sels ← getSels ss
+      some (.list [.atom "ok", putStr (Print.printGroup sels)])
     | _ => none
   r.getD (Sexp.err "c05: unknown or malformed request")
 
